@@ -4,7 +4,13 @@ write discipline the theorems assume (header with count 0 first, points appended
 length; after a failed low-level write the next write starts where the failed one started) is checked on the traces recorded from the
 implementation. Correspondence: read_file vs laspy.read on every distinct image. Search: laspy.read (under a timeout: reading must TERMINATE)
 of each image compared with the point sequence the session accepted; a sample of the images is also read through the other public routes
-(laspy.open with read_evlrs=False / laz_backend=() / chunk_iterator / a file on disk)."""
+(laspy.open with read_evlrs=False / laz_backend=() / chunk_iterator / a file on disk).
+Round 5: (1) destinations that ALREADY hold a LAS file (Model/LasDest.v: writes and truncations on a destination holding `old`; theorems
+C19_overwrite_*: emptied first, every image is an image of the session on an empty destination) - LasData.write(path) / laspy.open(path, 'w') on
+paths holding longer / shorter / same-size files of the same or another version, complete sessions and sessions whose header cannot be written
+completely; (2) two-level histories (Proofs/HistoryProofs.v): append sessions on the images interrupted sessions left, interrupted in turn;
+(3) faults raising every errno class / BlockingIOError / non-OSError exceptions, followed by with-exit, close only, or continued use (nothing
+stored); the library itself must issue no data write after a torn one."""
 import io
 import os
 import signal
@@ -16,7 +22,13 @@ from harness import common, lasio
 
 ASSUMPTIONS = ["a write is torn at a byte boundary; bytes beyond the torn point keep their previous content",
                "what EVLRs / statistics a crash image shows is unconstrained by the property",
-               "fault sequences judged: ONE low-level write of the session fails with OSError, every later write succeeds, and either (a) the failed "
+               "destinations given as a PATH are observed at the boundary between laspy and the operating system (the builtin open() is wrapped while the "
+               "session runs: mode, contents right after the open, every write / truncate); the image BEFORE the first byte of a session is written is the "
+               "old file and is not judged",
+               "two-level histories: proved for first sessions interrupted before or after (not inside) their header rewrite (C19_two_level_safe_partial, "
+               "C19_history_safe_append); images torn inside the header rewrite of the first session are continued on the implementation only",
+               "fault sequences judged: ONE low-level write of the session fails (raising any errno class of OSError, BlockingIOError with characters_written, "
+               "ValueError, MemoryError), every later write succeeds, and either (a) the failed "
                "write stored NO byte - then the session may go on in any way (the exception leaves the with-block, or the caller catches it and issues "
                "more chunks / the same chunk again, then closes) - or (b) it stored a prefix of its bytes (torn) and the session performs no further "
                "point write: only close() / __exit__ (which re-emit the EVLRs and rewrite the header) or nothing at all (a crash image). A torn write "
@@ -154,13 +166,13 @@ def gen_session(ctx, template=None):
         las = laspy.LasData(header=h, points=lasio.sweep_points(rng, h, n))
         if evl is not None:
             las.evlrs = evl
-        st = lasio.LogStream2()
+        st = lasio.LogStream3()
         las.write(st)
-        return dict(kind=kind, base=b"", trace=st.trace, intended=lasio.rec_bytes(las.points), ps=ps, desc=dict(desc, points=n), final=st.getvalue())
+        return dict(kind=kind, base=b"", trace=st.trace, ops=st.ops, intended=lasio.rec_bytes(las.points), ps=ps, desc=dict(desc, points=n), final=st.getvalue())
     if kind in ("chunked", "write"):
         # any order of calls the API accepts or refuses: chunks (also empty), the EVLRs, chunks AFTER the EVLRs and after close (refused: they
         # must leave no trace), close; what counts is what write_points accepted
-        st = lasio.LogStream2()
+        st = lasio.LogStream3()
         via = rng.choice(["class", "open"])
         w = lasio.open_writer(st, h, via, enc)
         pts, shape = b"", []
@@ -198,7 +210,7 @@ def gen_session(ctx, template=None):
         if state != "closed":
             w.close()
             shape.append("C")
-        return dict(kind="chunked", base=b"", trace=st.trace, intended=pts, ps=ps, desc=dict(desc, kind="chunked", via=via, ops=shape), final=st.getvalue())
+        return dict(kind="chunked", base=b"", trace=st.trace, ops=st.ops, intended=pts, ps=ps, desc=dict(desc, kind="chunked", via=via, ops=shape), final=st.getvalue())
     # append
     A = lasio.sweep_points(rng, h, rng.choice([0, 1, 4]))
     if rng.random() < 0.2 and not enc:
@@ -217,7 +229,7 @@ def gen_session(ctx, template=None):
         gp = rng.choice([1, ps, 2 * ps + 3])
         raw0 = lasio.with_gap(raw0, gp, fill=rng.choice([0x00, 0xAA])) or raw0
         desc["gap"] = gp
-    st = lasio.LogStream2(raw0)
+    st = lasio.LogStream3(raw0)
     via = rng.choice(["class", "open"])
     akw = dict(enc)
     if via == "open" and rng.random() < 0.5:
@@ -230,6 +242,7 @@ def gen_session(ctx, template=None):
         # an original the appender cannot re-write (padded WKT record) refused before anything was touched: nothing to interrupt
         return dict(kind=kind, base=raw0, trace=[], intended=lasio.rec_bytes(A), ps=ps, desc=dict(desc, refused_at_open=type(ex).__name__), final=raw0, refused=True)
     st.trace.clear()
+    st.ops.clear()
     pts = lasio.rec_bytes(A)
     sizes = []
     for ci in range(rng.randrange(1 if template else 0, 4)):
@@ -241,19 +254,21 @@ def gen_session(ctx, template=None):
         ap.close()
     except Exception as ex:
         desc["close_raised"] = type(ex).__name__
-    return dict(kind=kind, base=raw0, trace=st.trace, intended=pts, ps=ps, desc=dict(desc, via=via, open_kwargs={k: repr(v) for k, v in akw.items()}, orig=len(A), chunks=sizes), final=st.getvalue())
+    return dict(kind=kind, base=raw0, trace=st.trace, ops=st.ops, intended=pts, ps=ps, desc=dict(desc, via=via, open_kwargs={k: repr(v) for k, v in akw.items()}, orig=len(A), chunks=sizes), final=st.getvalue())
 
 
 def images_of(ctx, s):
     """(label, image) for crash points at every write-call boundary and torn inside every write (every byte for writes of at
     most 48 bytes - the header is written field by field -, a dense sample otherwise), and truncations of the complete file: EVERY length
     from 0 to offset_to_point_data + 2 records and from the last 2 records to the end (EVLR area included), a sample in between"""
-    tr = s["trace"]
+    tr = s.get("ops") or [("W", p_, b_) for p_, b_ in s["trace"]]      # writes and truncations, in the order issued
     out = []
     for k in range(len(tr) + 1):
-        out.append((f"after {k} writes", apply_trace(s["base"], tr, k, 0)))
-    for k, (pos, bs) in enumerate(tr):
-        n = len(bs)
+        out.append((f"after {k} writes", lasio.apply_ops(s["base"], tr, k, 0)))
+    for k, op in enumerate(tr):
+        if op[0] != "W":
+            continue
+        n = len(op[2])
         if n <= 1:
             continue
         if n <= 48 or ctx.thorough():
@@ -261,7 +276,7 @@ def images_of(ctx, s):
         else:
             js = sorted(set(list(range(1, 12)) + list(range(n - 11, n)) + [ctx.rng.randrange(1, n) for _ in range(12)]))
         for j in js:
-            out.append((f"write {k} torn at {j}", apply_trace(s["base"], tr, k, j)))
+            out.append((f"write {k} torn at {j}", lasio.apply_ops(s["base"], tr, k, j)))
     fin = s["final"]
     ps = s["ps"]
     try:
@@ -444,14 +459,16 @@ class _Len:
         return self.n
 
 
-def _fault_run(plan, policy, fail_at, keep):
-    """executes the plan on laspy with the fail_at-th low-level write after the open torn (keep bytes stored) - fail_at None: no fault.
-    policy 'with': the exception leaves the with-block; 'continue': the caller catches it and goes on with the next operation; 'retry': the
-    caller repeats the refused write_points once, then goes on. Returns dict(final, accepted, fault, where, trace, nwrites, base)."""
+def _fault_run(plan, policy, fail_at, keep, exc=None):
+    """executes the plan on laspy with the fail_at-th low-level write after the open torn (keep bytes stored, then the exception class `exc`
+    of lasio.FAULT_EXCS is raised: every errno class, BlockingIOError, exceptions that are not OSErrors) - fail_at None: no fault.
+    policy 'with': the exception leaves the with-block; 'close': the caller catches it, issues nothing more and closes; 'continue': the caller
+    catches it and goes on with the next operation; 'retry': the caller repeats the refused write_points once, then goes on.
+    Returns dict(final, accepted, fault, where, trace, nwrites, base)."""
     import laspy
     kind, h = plan["kind"], plan["header"]
     base = plan.get("base", b"")
-    st = lasio.LogStream2(base)
+    st = lasio.LogStream3(base)
     if kind == "writer":
         w = laspy.open(st, mode="w", header=h, closefd=False)
         put = w.write_points
@@ -461,19 +478,22 @@ def _fault_run(plan, policy, fail_at, keep):
         put = w.append_points
     n_open = len(st.trace)
     if fail_at is not None:
-        st.arm(fail_at, keep)
+        st.arm(fail_at, keep, exc=exc)
     accepted = lasio.rec_bytes(plan["orig"]) if kind == "appender" else b""
     where, log = None, []
 
     def guarded(name, fn, *a):
+        """True when the call returned; a call that raises counts as failed - it must be the injected fault (or follow it)"""
         nonlocal where
         try:
             fn(*a)
             return True
-        except OSError:
+        except Exception as ex:
+            if st.raised is None:
+                raise              # no fault was injected yet: the session itself cannot be run
             if where is None:
                 where = name
-            log.append(name + "!OSError")
+            log.append(name + "!" + type(ex).__name__)
             return False
     if policy == "with":
         try:
@@ -481,18 +501,31 @@ def _fault_run(plan, policy, fail_at, keep):
                 for c in plan["chunks"]:
                     try:
                         put(c)
-                    except OSError:
+                    except Exception:
                         where = "write_points"
                         raise
                     accepted += lasio.rec_bytes(c)
                 if kind == "writer" and plan["evl"]:
                     try:
                         w.write_evlrs(plan["evl"])
-                    except OSError:
+                    except Exception:
                         where = where or "write_evlrs"
                         raise
-        except OSError:
+        except Exception:
+            if st.raised is None:
+                raise
             where = where or "close"
+    elif policy == "close":
+        failed = False
+        for c in plan["chunks"]:
+            if guarded("write_points", put, c):
+                accepted += lasio.rec_bytes(c)
+            else:
+                failed = True
+                break
+        if not failed and kind == "writer" and plan["evl"]:
+            failed = not guarded("write_evlrs", w.write_evlrs, plan["evl"])
+        guarded("close", w.close)
     else:
         for c in plan["chunks"]:
             if guarded("write_points", put, c):
@@ -505,7 +538,7 @@ def _fault_run(plan, policy, fail_at, keep):
     # long data writes are kept as lengths only (the discipline check needs positions and lengths; the header fields are short)
     slim = [(p_, b_ if len(b_) <= 4096 else _Len(len(b_))) for p_, b_ in st.trace[n_open:]]
     return {"final": st.getvalue(), "accepted": accepted, "fault": st.fault, "where": where, "trace": slim, "nwrites": len(st.trace) - n_open,
-            "base": base, "open_trace": st.trace[:n_open]}
+            "base": base, "open_trace": st.trace[:n_open], "exc": exc, "raised": type(st.raised).__name__ if st.raised is not None else None}
 
 
 def fault_discipline(plan, run):
@@ -548,6 +581,31 @@ def fault_discipline(plan, run):
     return None
 
 
+def library_writes_after_torn(plan, run, policy):
+    """a torn write (bytes stored, the call raised) followed only by close / __exit__: the CALLER issues no further data write, so the only
+    bytes the library may still put behind the header are the EVLRs an appender re-emits when it is closed (a writer's EVLRs are written by
+    the caller's write_evlrs, which is not called). Returns a description of what was written beyond that, or None."""
+    f = run["fault"]
+    if f is None or f[3] == 0 or policy not in ("with", "close") or not str(run["where"]).startswith("write_points"):
+        return None
+    fi = f[0] - len(run["open_trace"])
+    if plan["kind"] == "writer":
+        off = int.from_bytes(b"".join(b for _, b in run["open_trace"])[96:100], "little")
+        allowed = 0
+    else:
+        d = lasio.parse_raw(run["base"])
+        off = d["offset"]
+        try:
+            allowed = lasio.raw_walk_vlrs(run["base"], d["evlr_start"], d["nevlrs"], True)[1] - d["evlr_start"] if d["nevlrs"] else 0
+        except ValueError:
+            return None
+    extra = [(p, len(b)) for p, b in run["trace"][fi + 1:] if p >= off and len(b)]
+    if sum(n for _, n in extra) != allowed:
+        return (f"after the torn write (call raised {run.get('raised')}) the library itself wrote {sum(n for _, n in extra)} more bytes behind the header "
+                f"{extra[:4]}; only the {allowed} bytes of the re-emitted EVLRs may follow when the caller issues nothing but close")
+    return None
+
+
 def fault_cases(ctx):
     """(plan, policy, run) over writer and appender sessions of several volumes (a few KB to beyond 1 MB: writers that gather chunks into
     blocks only show their state when a block fills up), every policy, fault positions spread over the writes of the session, torn
@@ -557,6 +615,7 @@ def fault_cases(ctx):
     volumes = [600, 3000, 9000, 70000, 150000, 300000] + ([1200000] if not ctx.thorough() else [1200000, 2500000, 5000000])
     keeps = [lambda n: 0, lambda n: min(1, n), lambda n: n // 3, lambda n: max(n - 1, 0), lambda n: n // 2 + 1]
     reps = ctx.n(2, 8)
+    nexc = [ctx.seed]
     for rep in range(reps):
         for kind in ("writer", "appender"):
             for vol in volumes + (["empty"] if kind == "appender" else []):
@@ -585,11 +644,14 @@ def fault_cases(ctx):
                         picks.add(data_writes[len(data_writes) // 2])
                 picks.add(rng.randrange(nw))
                 for fa in sorted(picks):
-                    for policy in ("with", "continue", "retry"):
-                        # (a) nothing stored: any continuation; (b) torn (bytes stored): only close / __exit__ follows
-                        keep = rng.choice(keeps) if policy == "with" else keeps[0]
+                    for policy in ("with", "continue", "retry", "close"):
+                        # (a) nothing stored: any continuation; (b) torn (bytes stored): only close / __exit__ follows.
+                        # The exception class rotates through lasio.FAULT_EXCS: every errno class with every policy over a run
+                        keep = rng.choice(keeps[1:] if rng.random() < 0.8 else keeps) if policy in ("with", "close") else keeps[0]
+                        exc = lasio.FAULT_EXC_NAMES[nexc[0] % len(lasio.FAULT_EXC_NAMES)]
+                        nexc[0] += 1 if policy != "retry" else 3
                         try:
-                            run = _fault_run(plan, policy, fa, keep)
+                            run = _fault_run(plan, policy, fa, keep, exc)
                         except Exception as ex:
                             run = {"error": f"{type(ex).__name__}: {ex}"}
                         out.append((plan, policy, fa, run))
@@ -604,8 +666,288 @@ def describe_fault(plan, policy, fa, run):
     if plan["kind"] == "appender":
         d["orig_points"] = len(plan["orig"])
     if run.get("fault"):
-        d["fault"] = {"position": run["fault"][1], "bytes_asked": run["fault"][2], "bytes_stored": run["fault"][3], "raised_in": run["where"]}
+        d["fault"] = {"position": run["fault"][1], "bytes_asked": run["fault"][2], "bytes_stored": run["fault"][3], "raised_in": run["where"],
+                      "raises": f"{run.get('exc')} ({run.get('raised')})"}
     return d
+
+
+# ---------------------------------------------------------------------------------
+# (1) destinations that ALREADY hold a LAS file when the write starts
+# ---------------------------------------------------------------------------------
+UNWRITABLE = ["system_identifier", "generating_software", "vlr description", "vlr payload too long", "none", "none", "none"]
+
+
+def _make_unwritable(rng, h, what):
+    """a header laspy starts to write and then cannot finish (public behaviour: the exception leaves LasData.write / laspy.open after some
+    bytes of the new header reached the destination)"""
+    import laspy
+    if what == "system_identifier":
+        h.system_identifier = "Café " + lasio.rand_ascii(rng, 5)          # cannot be encoded as ASCII (strict)
+    elif what == "generating_software":
+        h.generating_software = "schön " + lasio.rand_ascii(rng, 3)
+    elif what == "vlr description":
+        h.vlrs.append(laspy.VLR("Harness", 7, "déscription", b"\x01\x02"))
+    elif what == "vlr payload too long":
+        h.vlrs.append(laspy.VLR("Harness", 8, "too long for a VLR", bytes(65536 + rng.randrange(5))))
+
+
+def overwrite_cases(ctx):
+    """sessions writing to a PATH that already holds a LAS file (longer / shorter / same size, same or another version and format):
+    LasData.write(path), laspy.open(path, mode='w') + chunks, and the same with a header that cannot be written completely (a string that
+    cannot be encoded, a VLR that is too long: the call raises after some bytes). Returns dicts(desc, initial, ops, new point bytes, ps,
+    old point bytes, on_disk (what the path holds afterwards), raised)"""
+    import copy
+    import shutil
+    import laspy
+    from laspy.vlrs.vlrlist import VLRList
+    rng = ctx.rng
+    out = []
+    tmpd = tempfile.mkdtemp(dir="/var/tmp", prefix="c19_over_")
+    try:
+        for it in range(ctx.n(26, 220)):
+            ver = rng.choice(lasio.VERSIONS)
+            h_old = lasio.rand_header(rng, version=ver, nvlrs=rng.choice([0, 1, 2]))
+            n_old = rng.choice([1, 3, 12, 40])
+            old_pts = lasio.sweep_points(rng, h_old, n_old)
+            evl_old = VLRList([lasio.rand_vlr(rng, 60)]) if (h_old.version.minor >= 4 and rng.random() < 0.4) else None
+            old = lasio.write_las(h_old, old_pts, evl_old)
+            rel = rng.choice(["same header", "same header", "same version and format", "other"])
+            if rel == "same header":
+                h = copy.deepcopy(h_old)          # the first bytes of the new file agree with the old one as long as possible
+            elif rel == "same version and format":
+                h = lasio.rand_header(rng, version=ver, fmt=h_old.point_format.id)
+            else:
+                h = lasio.rand_header(rng)
+            n_new = rng.choice([0, 1, 5, n_old, n_old, 2 * n_old + 3])
+            route = rng.choice(["LasData.write(path)", "LasData.write(path)", "laspy.open(path, mode=w)"])
+            what = UNWRITABLE[it % len(UNWRITABLE)]
+            _make_unwritable(rng, h, what)
+            evl = VLRList([lasio.rand_vlr(rng, 60)]) if (h.version.minor >= 4 and rng.random() < 0.4) else None
+            path = os.path.join(tmpd, f"f{it}.las")
+            with open(path, "wb") as f:
+                f.write(old)
+            chunks = []
+            left = n_new
+            while left > 0:
+                k = min(left, rng.choice([1, 2, 5, 40]))
+                chunks.append(lasio.sweep_points(rng, h, k, start=rng.randrange(16)))
+                left -= k
+            new_pts = b"".join(lasio.rec_bytes(c) for c in chunks)
+            desc = dict(lasio.describe_header(h), route=route, old_file=dict(lasio.describe_header(h_old), points=n_old, bytes=len(old)), new_points=n_new,
+                        relation=rel, unwritable=what, evlrs=len(evl or []))
+            raised = None
+            with lasio.intercept_open(path) as made:
+                try:
+                    if route.startswith("LasData"):
+                        las = laspy.LasData(header=h)
+                        las.points = laspy.PackedPointRecord.from_buffer(bytearray(new_pts), h.point_format) if n_new else laspy.PackedPointRecord.zeros(0, h.point_format)
+                        if evl:
+                            las.evlrs = evl
+                        las.write(path)
+                    else:
+                        with laspy.open(path, mode="w", header=h) as w:
+                            for c in chunks:
+                                w.write_points(c)
+                            if evl:
+                                w.write_evlrs(evl)
+                except Exception as ex:
+                    raised = f"{type(ex).__name__}: {ex}"[:200]
+            with open(path, "rb") as f:
+                on_disk = f.read()
+            os.unlink(path)
+            if not made:
+                out.append({"error": f"{route}: the path was never opened for writing ({raised})", "desc": desc})
+                continue
+            lf = made[0]
+            out.append({"desc": dict(desc, open_mode=lf.mode, raised=raised), "initial": lf.initial, "ops": lf.ops, "new": new_pts, "ps": h.point_format.size,
+                        "old": lasio.rec_bytes(old_pts), "old_file": old, "on_disk": on_disk, "raised": raised, "what": what})
+    finally:
+        shutil.rmtree(tmpd, ignore_errors=True)
+    return out
+
+
+def overwrite_images(ctx, c):
+    """crash images of one overwrite session: after every operation; at EVERY byte of the writes of the first header (that is where what the
+    path held before can still show), a sample of the bytes of the later writes"""
+    ops = c["ops"]
+    out = []
+    first_hdr = True
+    pos_seen = 0
+    for k in range(len(ops) + 1):
+        if k > 0:
+            out.append((f"after {k} operations", lasio.apply_ops(c["initial"], ops, k, 0)))
+        if k == len(ops) or ops[k][0] != "W":
+            continue
+        _, pos, bs = ops[k]
+        if k > 0 and pos == 0:
+            first_hdr = False
+        if pos < pos_seen:
+            first_hdr = False
+        pos_seen = max(pos_seen, pos + len(bs))
+        n = len(bs)
+        if first_hdr and (n <= 64 or ctx.thorough()):
+            js = range(1, n)
+        elif n <= 8:
+            js = range(1, n)
+        else:
+            js = sorted(set([1, n // 2, n - 1] + ([ctx.rng.randrange(1, n)] if n > 3 else [])))
+        for j in js:
+            if 0 < j < n:
+                out.append((f"operation {k} (a write of {n} bytes at {pos}) torn at {j}", lasio.apply_ops(c["initial"], ops, k, j)))
+    return out
+
+
+# ---------------------------------------------------------------------------------
+# (2) two-level histories: the image an interrupted session left is the original of a second (append) session
+# ---------------------------------------------------------------------------------
+def _count_field_ops(ops, base):
+    """indices of the writes that touch the point-count fields of the header rewrite"""
+    minor = base[25] if len(base) > 25 else 2
+    spans = [(107, 111)] + ([(247, 255)] if minor >= 4 else [])
+    return [k for k, op in enumerate(ops) if op[0] == "W" and any(op[1] < b and op[1] + len(op[2]) > a for a, b in spans)]
+
+
+def level1_points(rng, ops, base):
+    """crash points (k, j) of a first session worth continuing from: inside and at the end of the point writes, around the EVLR rewrite,
+    around and inside the rewrite of the point count, the complete session"""
+    off = int.from_bytes(base[96:100], "little") if len(base) >= 100 else 227
+    data = [k for k, op in enumerate(ops) if op[0] == "W" and op[1] >= off and len(op[2])]
+    pts = set()
+    for k in data[:3] + data[-2:]:
+        n = len(ops[k][2])
+        pts.update([(k, max(1, n // 3)), (k, n - 1), (k + 1, 0)])
+        if n > 40:
+            pts.add((k, rng.randrange(1, n)))
+    hdr = [k for k, op in enumerate(ops) if op[0] == "W" and op[1] < off]
+    if hdr:
+        pts.add((hdr[0], 0))
+    for k in _count_field_ops(ops, base):
+        n = len(ops[k][2])
+        pts.update([(k, 0), (k + 1, 0)] + [(k, j) for j in range(1, n)])
+    pts.add((len(ops), 0))
+    return sorted(p for p in pts if p[0] <= len(ops))
+
+
+def history_cases(ctx):
+    """dicts(desc, base (image left by session 1), expected (what that image reads as ++ what session 2 appends), ops2, level-2 images ...).
+    Session 1: an append session on a clean file interrupted at a crash point (write call or byte), or a writer session one of whose chunk
+    writes was refused half way and which was then closed by its context manager (bytes are left behind the last counted point).
+    Session 2: laspy.open(image, mode='a'), chunks, close - recorded, and interrupted in turn at every operation and inside the header rewrite."""
+    import laspy
+    from laspy.vlrs.vlrlist import VLRList
+    rng = ctx.rng
+    out = []
+    for it in range(ctx.n(16, 140)):
+        h = lasio.rand_header(rng, version=rng.choice(lasio.VERSIONS), nvlrs=rng.choice([0, 1, 2]))
+        ps = h.point_format.size
+        evl = VLRList([lasio.rand_vlr(rng, 60) for _ in range(rng.choice([1, 2]))]) if (h.version.minor >= 4 and rng.random() < 0.45) else None
+        A = lasio.sweep_points(rng, h, rng.choice([0, 2, 5]))
+        first = "appender" if it % 4 else "writer with a chunk refused half way"
+        desc0 = dict(lasio.describe_header(h), evlrs=len(evl or []), first_session=first)
+        try:
+            if first == "appender":
+                base0 = lasio.write_las(h, A, evl)
+                st = lasio.LogStream3(base0)
+                ap = laspy.open(st, mode="a", closefd=False)
+                st.ops.clear()
+                B = [lasio.sweep_points(rng, h, rng.choice([1, 3, 6]), start=rng.randrange(16)) for _ in range(rng.choice([1, 2, 3]))]
+                for c in B:
+                    ap.append_points(c)
+                ap.close()
+                seq1 = lasio.rec_bytes(A) + b"".join(lasio.rec_bytes(c) for c in B)
+                ops1 = list(st.ops)
+                l1 = [(k, j, lasio.apply_ops(base0, ops1, k, j)) for k, j in level1_points(rng, ops1, base0)]
+                desc0["first_chunks"] = [len(c) for c in B]
+                desc0["orig_points"] = len(A)
+            else:
+                plan = {"kind": "writer", "header": h, "chunks": [lasio.sweep_points(rng, h, rng.choice([1, 2, 4]), start=rng.randrange(16)) for _ in range(rng.choice([2, 3]))],
+                        "evl": None, "sizes": None}
+                l1 = []
+                nchunks = len(plan["chunks"])
+                for fa in sorted(set([rng.randrange(nchunks), nchunks - 1])):
+                    keep = rng.choice([lambda n: 1, lambda n: n // 2, lambda n: n - 1, lambda n: max(1, n - ps)])
+                    run = _fault_run(plan, rng.choice(["with", "close"]), fa, keep, rng.choice(lasio.FAULT_EXC_NAMES))
+                    # (the open of a writer issues many small writes; fail_at counts writes after the open: chunk number fa)
+                    l1.append((fa, run["fault"][3] if run["fault"] else 0, run["final"]))
+                    seq1 = run["accepted"]
+                seq1 = None
+                desc0["first_chunks"] = [len(c) for c in plan["chunks"]]
+        except Exception as ex:
+            import traceback
+            out.append({"error": f"first session raised {type(ex).__name__}: {ex} | " + traceback.format_exc()[-400:], "desc": desc0})
+            continue
+        for k1, j1, img1 in l1:
+            d = dict(desc0, first_interrupted=f"operation {k1}, {j1} bytes of it" if first == "appender" else f"chunk {k1} torn after {j1} bytes, then closed")
+            r1 = read_image(img1)
+            if r1[0] != "ok":
+                ctx.count("history:image-1 refused by the reader")
+                continue
+            P1 = r1[1]
+            if seq1 is not None and seq1[:len(P1)] != P1:
+                out.append({"level1": True, "desc": d, "img": img1, "why": judge(P1, ps, seq1)})
+                continue
+            st2 = lasio.LogStream3(img1)
+            try:
+                ap2 = laspy.open(st2, mode="a", closefd=False)
+            except Exception as ex:
+                ctx.count("history:image-1 refused by the appender")
+                continue
+            if st2.ops:
+                out.append({"error": f"opening an appender wrote to the file: {[(o[0], o[1]) for o in st2.ops[:4]]}", "desc": d})
+            st2.ops.clear()
+            st2.trace.clear()
+            C = [lasio.sweep_points(rng, h, rng.choice([1, 2, 5]), start=rng.randrange(16)) for _ in range(rng.choice([1, 1, 2]))]
+            expected = P1
+            closed = None
+            try:
+                for c in C:
+                    ap2.append_points(c)
+                    expected += lasio.rec_bytes(c)
+                ap2.close()
+            except Exception as ex:
+                closed = f"{type(ex).__name__}: {ex}"[:200]
+            out.append({"desc": dict(d, second_chunks=[len(c) for c in C], image1_points=len(P1) // ps, image1_bytes=len(img1), second_raised=closed),
+                        "base": img1, "ops": list(st2.ops), "trace": list(st2.trace), "expected": expected, "ps": ps, "final": st2.getvalue(), "closed": closed})
+    return out
+
+
+def history_images(ctx, c):
+    ops = c["ops"]
+    out = []
+    cf = set(_count_field_ops(ops, c["base"]))
+    for k in range(len(ops) + 1):
+        out.append((f"second session after {k} operations", lasio.apply_ops(c["base"], ops, k, 0)))
+        if k == len(ops) or ops[k][0] != "W":
+            continue
+        n = len(ops[k][2])
+        if k in cf or ctx.thorough():
+            js = range(1, n)
+        elif n > 8:
+            js = sorted(set([1, n // 2, n - 1]))
+        else:
+            js = []
+        for j in js:
+            if 0 < j < n:
+                out.append((f"second session operation {k} torn at {j}", lasio.apply_ops(c["base"], ops, k, j)))
+    return out
+
+
+_OVER = None
+_HIST = None
+
+
+def overwrites(ctx):
+    global _OVER
+    if _OVER is None:
+        _OVER = overwrite_cases(ctx)
+    return _OVER
+
+
+def histories(ctx):
+    global _HIST
+    if _HIST is None:
+        _HIST = history_cases(ctx)
+    return _HIST
 
 
 _DATA = None
@@ -635,13 +977,51 @@ def faults(ctx):
     return _FAULTS
 
 
+def dest_image_correspondence(ctx):
+    """dest_image (Model/LasDest.v: positioned writes and truncations on a destination that already holds bytes - the object the theorems
+    C19_overwrite_* speak about) computed by the extracted model on the operations recorded from the implementation, against the images the
+    harness judges (lasio.apply_ops)"""
+    ok, log = common.build_driver("c06")
+    if not ok:
+        return [{"kind": "dest_image: driver could not be built", "input": None, "model": log[-400:], "impl": None}]
+    rng = ctx.rng
+    lines, want, meta = [], [], []
+    srcs = [(c["initial"], c["ops"], c["desc"]) for c in overwrites(ctx) if "error" not in c and c["ops"]]
+    srcs += [(c["base"], c["ops"], c["desc"]) for c in histories(ctx) if "error" not in c and not c.get("level1") and c["ops"]][:40]
+    # sessions that truncate in the middle (an appender on a file with unused bytes before its EVLRs) come from the crash-image sessions
+    srcs += [(s["base"], s["ops"], s["desc"]) for s in data(ctx) if "error" not in s and s.get("ops") and any(o[0] == "T" for o in s["ops"])][:30]
+    for base, ops, desc in srcs:
+        if len(base) > 6000 or sum(len(o[2]) for o in ops if o[0] == "W") > 12000:
+            continue
+        toks = " ".join(f"T{o[1]}" if o[0] == "T" else f"W{o[1]}:{common.hexb(o[2])}" for o in ops)
+        for _ in range(3):
+            k = rng.randrange(len(ops) + 1)
+            j = rng.randrange(len(ops[k][2]) + 1) if k < len(ops) and ops[k][0] == "W" and rng.random() < 0.6 else 0
+            lines.append(f"dimg {common.hexb(base)} {k} {j} {toks}")
+            want.append(lasio.apply_ops(base, ops, k, j))
+            meta.append((desc, k, j))
+    out = []
+    for (desc, k, j), w, mo in zip(meta, want, common.run_model(lines, name="c06")):
+        ctx.traces += 1
+        ctx.count("dest_image")
+        if mo != common.hexb(w):
+            out.append({"kind": "dest_image: the model's image of a recorded operation sequence differs from the harness's", "input": {"session": desc, "k": k, "j": j},
+                        "model": mo[:80], "impl": common.hexb(w)[:80]})
+    return out
+
+
 def correspond(ctx):
     ctx.extra["rule"] = ("sessions: LasData.write, LasWriter sessions (class or laspy.open, chunks incl. empty ones, EVLRs, chunks after the EVLRs / after close "
                          "which must be refused), appender sessions (class or laspy.open, laz_backend None/()), every version x kind with VLRs, +-EVLRs, stale "
                          "statistics, 25% with non-ASCII header strings / VLR descriptions written with encoding_errors=ignore/replace; low-level writes "
                          "recorded by a logging stream; crash images after every write call, at every byte inside writes of <= 48 bytes (the header is written "
                          "field by field) and a dense sample of the longer ones, truncations at EVERY length up to offset_to_point_data + 2 records and from "
-                         "the last 2 records to the end; final images of fault sequences (one torn write, then continued use). non-trivial = image length "
+                         "the last 2 records to the end; final images of fault sequences (one torn write raising every errno class / BlockingIOError / non-OSError "
+                         "exceptions, then with-exit, close only, continued use or a retry by the caller). Round 5: writes to a PATH that already holds a LAS file "
+                         "(longer / shorter / same size, same or other version; LasData.write(path), laspy.open(path, mode=w), headers that cannot be written "
+                         "completely) with the open mode, the contents after the open and every write / truncate recorded at the OS boundary, images at every "
+                         "operation and every byte of the first header; two-level histories (an append session on the image an interrupted appender / a writer "
+                         "with a half-refused chunk left, interrupted in turn at every operation and every byte of the point count). non-trivial = image length "
                          "> 227; distinct by image bytes (each distinct image is evaluated once)")
     dis = []
     cmds, meta, seen = [], [], set()
@@ -661,6 +1041,28 @@ def correspond(ctx):
         seen.add(img)
         cmds.append("read_file " + common.hexb(img))
         meta.append(({"kind": "fault-" + plan["kind"], "desc": describe_fault(plan, policy, fa, run)}, "final image of a fault sequence", img))
+    # round 5: images of sessions whose destination already held a file, and of append sessions on the image an interrupted session left
+    # (a sample of each: the reader of the model against laspy.read); the images themselves are ALSO computed by the model (dest_image of
+    # Model/LasDest.v, driver "c06") from the recorded operations and compared with the harness's own apply_ops
+    extra = []
+    for c in overwrites(ctx):
+        if "error" in c or not c["ops"]:
+            continue
+        imgs = overwrite_images(ctx, c)
+        for label, img in imgs[::max(1, len(imgs) // 12)]:
+            extra.append(({"kind": "overwrite", "desc": c["desc"]}, label, img))
+    for c in histories(ctx):
+        if "error" in c or c.get("level1") or not c["ops"]:
+            continue
+        imgs = history_images(ctx, c)
+        for label, img in imgs[::max(1, len(imgs) // 6)]:
+            extra.append(({"kind": "history", "desc": c["desc"]}, label, img))
+    for s_, label, img in extra:
+        if img not in seen and len(img) <= 20000:
+            seen.add(img)
+            cmds.append("read_file " + common.hexb(img))
+            meta.append((s_, label, img))
+    dis += dest_image_correspondence(ctx)
     outs = common.run_model(cmds)
     for (s, label, img), mo in zip(meta, outs):
         im = read_image(img)
@@ -764,6 +1166,77 @@ def search(ctx, seeds):
                             add(f"{s['kind']}: image '{cls}' read through {route} yields points that were not written",
                                 {"session": s["desc"], "image": label, "route": route, "image_hex": img.hex()[:6000]}, why)
     _guarded(add, 'crash images and truncations', sec_crash_images_and_truncations)
+    def sec_destination_holds_a_file():
+        for c in overwrites(ctx):
+            if "error" in c:
+                add("write to a path that holds a file: the session could not be run", c["desc"], c["error"])
+                continue
+            d = c["desc"]
+            ctx.count(f"overwrite:{d['route']}:{d['relation']}:{'raised' if c['raised'] else 'completed'}")
+            if c["raised"] and c["what"] == "none":
+                add("write to a path that holds a file: the session raised", d, c["raised"])
+            new, ps = c["new"], c["ps"]
+            # the discipline the theorem (C19_overwrite_safe) assumes: the destination is emptied before the first byte is written
+            first_w = next((i for i, op in enumerate(c["ops"]) if op[0] == "W" and len(op[2])), None)
+            emptied = len(c["initial"]) == 0 or any(op == ("T", 0) for op in c["ops"][:first_w or 0])
+            # what the path really holds afterwards (complete session: exactly the new points; refused half way: raise or a prefix)
+            final_imgs = [("the file on disk afterwards", c["on_disk"])]
+            imgs = final_imgs + (overwrite_images(ctx, c) if c["ops"] else [])
+            bad = None
+            for label, img in imgs:
+                im = read_image(img)
+                ctx.case(("overwrite", img), nontrivial=len(img) > 227)
+                if im[0] == "hang":
+                    add("reader does not terminate (destination held a file)", dict(d, image=label, image_hex=img.hex()[:6000]), "laspy.read still running")
+                elif im[0] == "ok":
+                    why = judge(im[1], im[2], new)
+                    if why is None and label.startswith("the file on disk") and not c["raised"] and im[1] != new:
+                        why = f"the complete file holds {len(im[1]) // max(ps, 1)} of the {len(new) // max(ps, 1)} points written"
+                    if why and bad is None:
+                        oldp = c["old"]
+                        if im[1] and oldp[:len(im[1])] == im[1]:
+                            why += f" - they are {len(im[1]) // max(im[2], 1)} points of the file the path held BEFORE"
+                        bad = (label, img, why)
+            if bad:
+                label, img, why = bad
+                add("destination already held a LAS file: an interrupted write yields points that were not written (the old ones)" if "BEFORE" in why else
+                    "destination already held a LAS file: an interrupted write yields points that were not written",
+                    dict(d, image=label, image_hex=img.hex()[:6000], destination_emptied_first=emptied), why)
+            elif not emptied and c["ops"]:
+                add("write discipline: the destination is not emptied before the new header is written", dict(d, first_operations=[(o[0], o[1]) for o in c["ops"][:6]]),
+                    f"the path was opened with mode {d.get('open_mode')!r} and still held {len(c['initial'])} bytes when the first write was issued")
+    _guarded(add, 'destination already holds a file', sec_destination_holds_a_file)
+    def sec_two_level_histories():
+        for c in histories(ctx):
+            if "error" in c:
+                add("two-level history: a session could not be run", c["desc"], c["error"])
+                continue
+            if c.get("level1"):
+                add("append: image yields points that were not written (first level of a history)", dict(c["desc"], image_hex=c["img"].hex()[:6000]), c["why"])
+                continue
+            d = c["desc"]
+            ctx.count("history:" + d["first_session"].split(" ")[0])
+            why = check_discipline({"kind": "append", "base": c["base"], "trace": c["trace"]}) if c["trace"] else None
+            if why and not c["closed"]:
+                add("append session on the image an interrupted session left: write discipline", dict(d, trace=[(p_, len(b_)) for p_, b_ in c["trace"]][:60]), why)
+            fin = read_image(c["final"])
+            if not c["closed"]:
+                if fin[0] == "ok" and fin[1] != c["expected"]:
+                    add("append session on the image an interrupted session left: the complete file does not hold old ++ appended points",
+                        dict(d, image_hex=c["final"].hex()[:6000]), judge(fin[1], fin[2], c["expected"]) or f"{len(fin[1]) // max(fin[2], 1)} records read, {len(c['expected']) // c['ps']} expected")
+                elif fin[0] == "err":
+                    add("append session on the image an interrupted session left: the complete file cannot be read", dict(d, image_hex=c["final"].hex()[:6000]), fin[1])
+            for label, img in history_images(ctx, c):
+                im = read_image(img)
+                ctx.case(("history", img), nontrivial=len(img) > 227)
+                if im[0] == "hang":
+                    add("reader does not terminate (two-level history)", dict(d, image=label, image_hex=img.hex()[:6000]), "laspy.read still running")
+                elif im[0] == "ok":
+                    why = judge(im[1], im[2], c["expected"])
+                    if why:
+                        add("append session on the image an interrupted session left: an image yields points that were not written", dict(d, image=label, image_hex=img.hex()[:6000]), why)
+                        break
+    _guarded(add, 'two-level histories', sec_two_level_histories)
     def sec_fault_sequences():
         for plan, policy, fa, run in faults(ctx):
             d = describe_fault(plan, policy, fa, run)
@@ -775,6 +1248,10 @@ def search(ctx, seeds):
             why = fault_discipline(plan, run)
             if why:
                 add(f"fault sequence ({plan['kind']}): write discipline", d, why)
+            why = library_writes_after_torn(plan, run, policy)
+            if why:
+                add(f"fault sequence ({plan['kind']}): the library issues data writes of its own after a torn write", d, why)
+            ctx.count(f"fault-exc:{run.get('exc')}:{'torn' if run['fault'] and run['fault'][3] else 'nothing stored'}")
             img = run["final"]
             r = _with_timeout(lambda: _read_plain(img), READ_LIMIT + len(img) / 2e6)
             if r[0] == "hang":
@@ -782,7 +1259,8 @@ def search(ctx, seeds):
             elif r[0] == "ok":
                 why = judge(r[1][0], r[1][1], run["accepted"])
                 if why:
-                    tag = "exception leaves the with-block" if policy == "with" else f"caller goes on after a write in {run['where']} failed with nothing stored"
+                    tag = ("exception leaves the with-block" if policy == "with" else ("caller only closes after the failed write" if policy == "close" else
+                           f"caller goes on after a write in {run['where']} failed with nothing stored"))
                     add(f"fault sequence ({plan['kind']}, {tag}): points that were not written", dict(d, image_hex=img.hex()[:4000]), why)
     _guarded(add, 'fault sequences', sec_fault_sequences)
     return failing[:8]
